@@ -85,7 +85,7 @@ theorem redirect_on_bound_host {m : RMap} {a : Adapter} (hb : BoundOK m a) {p : 
     refine ⟨s, some dom, lstripChar '/' path, ?_, lstripChar_head _ _, .inr hmem⟩
     have hscr' : a.scriptName.dropLast ++ ('/' :: lstripChar '/' path ++ querySuffix a qa) =
         scriptRoot a ++ (lstripChar '/' path ++ querySuffix a qa) := by
-      rw [← List.append_assoc, ← List.append_assoc, ← hscr]; simp
+      rw [← List.append_assoc, ← List.append_assoc, ← hscr]
     rw [hu, hq, hu']
     simp only [List.append_assoc]
     rw [hscr']
@@ -93,5 +93,119 @@ theorem redirect_on_bound_host {m : RMap} {a : Adapter} (hb : BoundOK m a) {p : 
   · rw [hhm, makeRedirectUrl_shape _ _ _ _ _ (getHost_ne_nil a (some dom) hb.server)] at hu
     refine ⟨schemeOf a, some dom, lstripChar '/' path, ?_, lstripChar_head _ _, .inl rfl⟩
     rw [hu]; simp [boundPrefix, schemeOf, querySuffix, effQa_idem]
+
+
+/-- adapter / map of the examples -/
+def adapter0 : Adapter :=
+  { serverName := "example.org".toList, scriptName := "/app/".toList, subdomain := some [], urlScheme := "https".toList,
+    defaultMethod := "GET".toList, queryArgs := .text "a=1".toList }
+
+def specs0 : List RuleSpec :=
+  [ { toks := [.slash, .lit "a".toList, .slash], endpoint := "a".toList },
+    { toks := [.slash, .lit "b".toList, .slash, .lit "c".toList], endpoint := "b".toList } ]
+
+def redirectUrlOf (cfg : MapCfg) (specs : List RuleSpec) (a : Adapter) (path : String) : Option Str :=
+  match mkMap cfg specs with
+  | some m => (match matchAdapter m a path.toList none .none none with | .redirect u => some u | _ => none)
+  | none => none
+
+-- non-vacuity: `//evil.example/a` without the final slash redirects to the bound host, and so does the
+-- merged-slashes redirect of `/b//c`
+example : redirectUrlOf {} [{ toks := [.slash, .var .path "p".toList, .slash], endpoint := "p".toList }] adapter0 "//evil.example/a"
+      = some "https://example.org/app/evil.example/a/?a=1".toList ∧
+    redirectUrlOf {} specs0 adapter0 "/b//c" = some "https://example.org/app/b/c?a=1".toList ∧
+    adapter0.scriptName = scriptRoot adapter0 := by
+  decide +kernel
+
+/-! ### convergence -/
+
+/-- how `StateMachineMatcher.match` comes to raise `RequestPath` -/
+theorem matchSM_requestPath_inv {root : State} {mg rd : Bool} {q : Req} {dom path p' : Str}
+    (h : matchSM root mg rd q dom path = .requestPath p') :
+    ((dfs q root (segments dom path) []).res = .slash ∧ p' = path ++ ['/']) ∨
+    ((dfs q root (segments dom path) []).res = .none ∧ mg = true ∧
+      (((dfs q root (segments dom (mergeSlashes path)) []).res = .slash ∧ p' = mergeSlashes path ++ ['/']) ∨
+       (∃ r vs, (dfs q root (segments dom (mergeSlashes path)) []).res = .found r vs ∧ r.merge = true ∧ p' = mergeSlashes path))) := by
+  simp only [matchSM] at h
+  simp only [segments]
+  cases h1 : (dfs q root (dom :: splitOn '/' path) []).res with
+  | slash => simp only [h1] at h; cases h; exact .inl ⟨rfl, rfl⟩
+  | found r vs =>
+    simp only [h1, finishMatch] at h
+    split at h
+    · cases h
+    · split at h <;> cases h
+  | none =>
+    simp only [h1] at h
+    right
+    refine ⟨rfl, ?_⟩
+    cases mg with
+    | false => simp at h
+    | true =>
+      refine ⟨rfl, ?_⟩
+      simp only [if_true] at h
+      cases h2 : (dfs q root (dom :: splitOn '/' (mergeSlashes path)) []).res with
+      | slash => simp only [h2] at h; cases h; exact .inl ⟨rfl, rfl⟩
+      | none => simp [h2] at h
+      | found r vs =>
+        simp only [h2] at h
+        split at h
+        · rename_i hm; cases h; exact .inr ⟨r, vs, rfl, hm, rfl⟩
+        · cases h
+
+/-- **slash_redirect_converges_partial.** When the search asks for the slash redirect on a path, the
+redirect target (path + `/`) is admitted DIRECTLY, for the same request, by a strict branch rule of the
+map — the one that asked for the slash — so re-matching the target finds a rule or, at worst, another
+redirect; it is never `NotFound` / `MethodNotAllowed` for lack of an admitting rule.
+(`FinalShape`: what `_parse_rule` guarantees about slash-consuming parts; proved for rules without
+subdomain rule, `bindRule_finalShape`.) -/
+theorem slash_redirect_converges_partial {cfg : MapCfg} {specs : List RuleSpec} {m : RMap} (hm : mkMap cfg specs = some m)
+    (hshape : ∀ r ∈ m.rules, FinalShape r.parts) {q : Req} {dom path : Str}
+    (h : (dfs q m.root (segments dom path) []).res = .slash) :
+    (∃ r ∈ m.rules, r.spec.buildOnly = false ∧ r.strict = true ∧ ruleOK q r = true ∧
+        ∃ vs, walkVia .direct r.parts (segments dom (path ++ ['/'])) = some vs) ∧
+    (dfs q m.root (segments dom (path ++ ['/'])) []).res ≠ .none := by
+  have hb := mkMap_built hm
+  have hs := dfs_sound q m.root (segments dom path) []
+  rw [h] at hs
+  obtain ⟨r, ps, vs', hi, hok, hst, hw⟩ := hs
+  have hi0 := hi
+  rw [hb.root_eq, inTrie_buildRoot] at hi0
+  obtain ⟨hmem, hbo, rfl⟩ := hi0
+  have hdir := noslash_to_direct (hshape r hmem) hw
+  rw [← segments_append_slash] at hdir
+  refine ⟨⟨r, hmem, hbo, hst, hok, vs', hdir⟩, ?_⟩
+  intro hn
+  have hwf : WF m.root := by rw [hb.root_eq]; exact WF.buildRoot _
+  have := dfs_complete q m.root hwf _ _ hn r.parts r .direct hi hok (by intro h; cases h)
+  rw [hdir] at this; cases this
+
+/-- **merge_redirect_converges.** The target of a merged-slashes redirect re-matches without another
+redirect of that kind: the first search on the merged path IS the search that produced the redirect, so
+`match` goes straight to the conversion of the rule found there (same rule, same groups). -/
+theorem merge_redirect_converges {root : State} {mg rd : Bool} {q : Req} {dom path : Str} {r : Rule} {vs : List Str}
+    (h2 : (dfs q root (segments dom (mergeSlashes path)) []).res = .found r vs) :
+    matchSM root mg rd q dom (mergeSlashes path) =
+      finishMatch rd r vs (dfs q root (segments dom (mergeSlashes path)) []).ms (dfs q root (segments dom (mergeSlashes path)) []).wsm := by
+  simp only [segments] at h2
+  simp only [matchSM, h2, segments]
+
+-- non-vacuity of both: `/a` asks for the slash, `/b//c` is found on the second pass
+example : (match mkMap {} specs0 with
+    | some m =>
+      (match (dfs ⟨"GET".toList, false⟩ m.root (segments [] "/a".toList) []).res with | .slash => true | _ => false) &&
+      (match (dfs ⟨"GET".toList, false⟩ m.root (segments [] (mergeSlashes "/b//c".toList)) []).res with | .found _ _ => true | _ => false) &&
+      decide (mergeSlashes "/b//c".toList = "/b/c".toList)
+    | none => false) = true := by decide +kernel
+
+-- OPEN (P1): slash_redirect_converges at full strength — "match (p ++ '/') is not again a slash redirect and
+-- returns the rule/values the original would have". Proved: the target is directly admitted by the
+-- strict rule that asked for the slash and its search is not `None` (above), and by C03.match_priority
+-- whatever is returned is specificity-minimal among the admitting rules. Missing: excluding a second
+-- `SlashRequired` needs the domain fact that no rule part other than a final empty one admits the empty
+-- segment (no `//` left in rules, no converter accepting ""), which is not yet carried as a predicate.
+-- OPEN (P1): defaults_redirect_converges — needs C04.match_build for the canonical rule (the
+-- URL built from the matched values matches back to the same endpoint/values) on non-overlapping maps;
+-- validated by stream `redirects` (oracle: final endpoint/arguments equal the original's).
 
 end Wz.Props.C12
